@@ -70,7 +70,7 @@ def r17_1(ctx):
     p0 = sniff.params[0]
     opens = [c for c in walk_own(sniff.node) if isinstance(c, ast.Call) and norm(c.func) == "open"]
     reads_magic = False
-    from ..core import const_fold, resolve_expr, with_str_consts, inline_callable_aliases, sink_into_branches, desugar_ifexp
+    from ..core import const_fold, resolve_expr, with_str_consts, inline_callable_aliases, sink_into_branches, desugar_ifexp, inline_bool_temps
 
     sn_ = with_str_consts(sniff)
     for r in walk_own(sn_.node):
@@ -94,6 +94,7 @@ def r17_1(ctx):
     for f in repo.all_funcs():
         if f.module.name in ("gaftools.gfa", "gaftools.utils", "gaftools.__main__", "gaftools.timer"):
             continue
+        f = inline_bool_temps(f)  # `gz = is_file_gzipped(p); if gz:` is the sniffing test itself
         if any(isinstance(x, ast.IfExp) or (isinstance(x, ast.Assign) and norm(x.value) in ("open", "gzip.open", "libcbgzf.BGZFile", "BGZFile")) for x in walk_own(f.node)):
             f = inline_callable_aliases(sink_into_branches(desugar_ifexp(f)))  # `opener = A if gz else B; opener(path)`
         for c in walk_own(f.node):
@@ -115,6 +116,7 @@ def r17_1(ctx):
             for t, pol in g:
                 while isinstance(t, ast.UnaryOp) and isinstance(t.op, ast.Not):
                     t, pol = t.operand, not pol
+                t = c03.sniff_test(f, t)
                 if isinstance(t, ast.Call) and same_func(ctx.repo.resolve_call(f, t), sniff) and norm(t.args[0]) == path:
                     sn.append((t, pol))
             if not sn:
